@@ -212,7 +212,7 @@ type FlowResult struct {
 	// the respective call.
 	InSend atomic.Bool
 	InRecv atomic.Bool
-	mu           sync.Mutex
+	mu     sync.Mutex
 }
 
 // Delivered returns the number of messages received so far.
